@@ -37,6 +37,9 @@ def ref_outputs(psi, times, n_out, outputs=None):
 
 # when set to a list, every simulate call of every AnalyticModel appends its parameter vector (a spy for the harness)
 SIM_LOG = [None]
+# when set to a number, simulate raises for parameter vectors whose first entry lies below it (a model that cannot be
+# solved at some points; chi turns the failure into a score of -infinity)
+FAIL_BELOW = [None]
 
 
 class AnalyticModel(chi.MechanisticModel):
@@ -104,6 +107,8 @@ class AnalyticModel(chi.MechanisticModel):
         psi = np.array(parameters, dtype=float)
         if SIM_LOG[0] is not None:
             SIM_LOG[0].append(tuple(psi.tolist()))
+        if FAIL_BELOW[0] is not None and psi.size and psi[0] < FAIL_BELOW[0]:
+            raise ArithmeticError('AnalyticModel: the model cannot be solved at these parameters (requested by the harness)')
         if psi.shape != (self._n_par,):
             raise ValueError('AnalyticModel: expected %d parameters, got shape %s' % (self._n_par, psi.shape))
         times = np.array(times, dtype=float)
